@@ -247,7 +247,11 @@ def run(ctx, R, tier):
     from ..report import Rules
     from . import c08
     R8 = Rules("C08")
-    c08.run(ctx, R8, tier)
+    try:
+        c08.run(ctx, R8, tier)
+    except AnalysisError as _shared_x:
+        # the other property's own anchors are gone on this tree: its check reports that; what it produced before is still shared
+        R.note("obligations shared from C08 are incomplete on this tree: %s" % _shared_x)
     for o in R8.obs:
         if o.key == "C08-R5|client|handshake-reply-decoded-by-reply-serializer":
             R.add("C18-R3", "client|refusal-decodable", o.desc + " (the pool-full refusal is sent before the daemon adopts the client's serializer)", o.ok, o.loc, o.detail)
